@@ -43,7 +43,7 @@ CLAIMED = {
  "C06": ("Scripted receiver with loss, withheld / duplicate / selective / stale ACKs, plus passive clauses on lossy duplex runs; oracles: timeout retransmission not before the minimum RTO after the timer can last have been (re)started, doubling gaps within 200 ms..60 s, fast retransmit at the third duplicate ACK or SACK evidence (outside timeout recovery), retransmission cap ends the connection with an application-visible error, nothing acknowledged is re-emitted, stable bytes per sequence number (only a never-acknowledged probe is re-cut, with a consistent prefix).",
          TRUST + "Which emissions are timeout retransmissions is read from the end-of-poll snapshot (hook H2). A segment larger than the link's smallest segment size is treated as a possible probe. Known findings F1, F15.",
          SIM + ": scripted-peer loss/ACK histories, wire + timing oracle", "DESIGN.md §3 C06"),
- "C07": ("Paced compliant scripted sender (one datagram per virtual instant, no back-pressure) with seeded gaps, duplicates, reordering, FIN, reader stalls; oracles: every in-order packet is acknowledged within 40 ms, immediately on a duplicate / out-of-order / gap-filling packet, two full segments or FIN, no ST_STATE without something new to say, a re-opened zero window is announced at once (also when one large packet both grew the segment size and closed the window, with a reader that drains within milliseconds or seconds; also with the endpoint's own sender blocked by a closed peer window).",
+ "C07": ("Paced compliant scripted sender (one datagram per virtual instant) with seeded gaps, duplicates, reordering, FIN (also repeated while the endpoint's own FIN is unacknowledged), reader stalls; a second family lets the endpoint's socket refuse sends now and then (deadlines extended by the refusals in between); oracles: every in-order packet is acknowledged within 40 ms, immediately on a duplicate / out-of-order / gap-filling packet, two full segments or FIN, no ST_STATE without something new to say, a re-opened zero window is announced at once (also when one large packet both grew the segment size and closed the window, with a reader that drains within milliseconds or seconds; also with the endpoint's own sender blocked by a closed peer window).",
          TRUST + "Timing clauses are judged only in the paced family where 'same instant' is unambiguous.",
          SIM + ": scripted-peer paced histories, timing oracle on emitted ACKs", "DESIGN.md §3 C07"),
  "C17": ("Scripted peer in both roles drives every teardown and handshake corner (SYN-ACK retry and give-up, FIN before/after data, simultaneous close, FIN loss, RESET in every state, duplicate SYN, data after FIN, hostile acknowledgement numbers) plus duplex close races; oracles over wire + API + end-of-poll state: legal state sequence, SYN-ACK retries bounded, FIN only after all data was sent and numbered after it, FIN acknowledged only in sequence, RESET surfaces as an error and silences the endpoint, LastAck waits (or not) as configured; while the endpoint's FIN is out and unacknowledged its retransmission timer is armed at the end of every poll, and a FIN that is due (application closed, nothing left to send or acknowledge) is sent in that poll.",
